@@ -53,6 +53,8 @@ func runC01(w *World, r *Report) {
 	hrConcurrentAllowed(w, r, "R10")
 	hrProcessorCallsOnlyItsOperation(w, r, "R10")
 	hrSetInt64Stores(w, r, "R10")
+	hrEveryMatchingEdgeFollowed(w, r, "R10")
+	hrCounterParsedAsDecimal(w, r, "R10")
 	r.Borrow(w, c11ClockKeepsMonotonicReading, map[string]string{"R4": "R10"})
 	hrChildStrategyKeepsParent(w, r, "R10")
 	// the limiter's verdict reaches the proxy through the merge of the request actions (C07.R2)
